@@ -10,7 +10,7 @@ class C01(Check):
     prop = "C01"
     required_theorems = ["streak_characterisation", "event_spec", "model_trace_meets_spec",
                          "pending_invariants", "stale_result_ignored", "nondecreasing_never_stale",
-                         "host_projection", "soft_implies_last_hard_ok"]
+                         "host_projection", "soft_implies_last_hard_ok", "dropped_only_if_older"]
     technique = "Lean 4 proof (invariant by induction + refinement to the streak counter) over a hand-written model; correspondence by exhaustive + random differential execution of Checkable::ProcessCheckResult"
     level_text = ("Machine-checked theorems (Lean 4 kernel) that for every configuration with max_check_attempts >= 1, every start state and every "
                   "finite result history the model's trace satisfies the executable specification of the property (streak characterisation, event rule, "
